@@ -45,42 +45,50 @@ class C09(Prop):
     technique = ("Coq proof about a statement-by-statement model of PayloadWriter (byte-list state machine, panics explicit) against an "
                  "independent DogStatsD message parser and framing/size/conservation clauses; differential correspondence on op sequences "
                  "through the cfg(metrics_verif) verif_driver hook")
-    rule = ("random op sequences (1..11 ops) on ONE writer: write_counter / write_gauge / write_histogram / write_distribution and "
-            "payloads() drains (full, partial k=0..4, repeated = flush cycles); max_payload_len in {0..80 (most), 81..400, 1432, 8192, "
-            "rarely 2^32-1 / 2^32 / 2^32+5}; length prefix on/off; prefix none / 0..2 / 1..4 / 5..24 bytes; 0..5 global labels; names of "
-            "length 0..max+8; 0..4 own labels incl. bare tags and empty keys; histogram value lists 0..300 (thorough: ..1500) from a pool of "
-            "floats whose ryu renderings are 3..24 bytes (extremes, subnormals, NaN, +-inf, random bit patterns); sample rate none / "
-            "0.5 / 1.0 / 1e-9 / ...; 1 case in 5 draws strings from an adversarial alphabet with the delimiters : | , # @ \\n T = and "
-            "multi-byte UTF-8. A case is non-trivial if a drain yielded at least one payload or a write dropped a point; distinct = "
-            "distinct (case, outputs). Compared per op: WriteResult (payloads_written, points_dropped), Payloads::len(), every payload "
-            "byte string, panic.")
-    level_text = ("Theorems (Coq, all op sequences, all max < 2^32, both framing modes, all prefixes/labels/value strings): from any state "
-                  "satisfying the invariant Winv no operation panics and Winv is preserved, also by rejected writes and partial drains "
-                  "(C09_total, C09_total_sequences); every yielded payload is LE32(|body|)++body (or body) with |body| <= max "
-                  "(C09_len_bound, C09_framing); a drain yields exactly the first k committed frames in order "
-                  "(C09_drain_yields_committed); one write commits the renderings of the expected message over a split of exactly the "
-                  "values whose single-value message fits, and payloads_written/points_dropped count them (C09_point_conservation, "
-                  "C09_write_result_meets_spec); the rendering has the declared length and is read back by the independent parser under "
-                  "delimiter-freeness (C09_message_roundtrip, C09_emitted_message_roundtrip). The code as found is refuted clause by "
-                  "clause (C09_*_refuted_before_fix_*). The model is tied to /repo by running the real PayloadWriter and the model on "
-                  "the same generated op sequences each run, byte for byte.")
-    level_note = ("PARTIAL: C09_spec_ok_on_model_partial proves, for every case, no panic, one output per op and the framing/size clause of "
-                  "spec_ok on every yielded payload; the WriteResult clause is proved per write. The message/conservation clause is proved "
-                  "per write call (bodies committed = renderings of a split of the kept values; parser round trip) but its composition "
-                  "with the executable checker's pending-payload bookkeeping (Spec.distribute) over whole sequences is not proved, so "
-                  "`forall c, spec_ok c (run_case c) = true` is not a theorem; spec_ok is evaluated on every implementation output of "
-                  "every run instead. Trusted: Coq kernel; hand-written model tied by differential runs; itoa/ryu number formatting "
-                  "(the driver echoes the strings, python checks that they read back to the same u64/f64); usize arithmetic other than "
-                  "the subtraction in current_len assumed not to wrap; names/labels valid UTF-8 (Rust strings). Names, tags or prefixes "
-                  "containing the delimiter bytes : | , # newline are emitted unescaped by the writer; the message clause is stated "
-                  "under delimiter-freeness (wf_msg) and is vacuous for such inputs.")
+    rule = ("Three case kinds, 80/10/10. (W) random op sequences (1..11 ops) on ONE writer: write_counter / write_gauge / write_histogram / "
+            "write_distribution and payloads() drains (full, partial k=0..4, repeated = flush cycles); max_payload_len in {0..80 (most), "
+            "81..400, 1432, 8192, rarely 2^32-1 / 2^32 / 2^32+5}; length prefix on/off; prefix none / 0..2 / 1..4 / 5..24 bytes; 0..5 global "
+            "labels; names of length 0..max+8; 0..4 own labels incl. bare tags and empty keys; histogram value lists 0..300 (thorough: ..1500) "
+            "from a pool of floats whose ryu renderings are 3..24 bytes (extremes, subnormals, NaN, +-inf, random bit patterns); sample rate "
+            "none / 0.5 / 1.0 / 1e-9 / ...; 1 case in 5 draws strings from an adversarial alphabet with the delimiters : | , # @ \\n T = and "
+            "multi-byte UTF-8. Compared per op: WriteResult, Payloads::len(), every payload byte string, panic. (B) 0..4 builder operations "
+            "(with_remote_address from a pool of 31 addresses: every scheme, bare host:port, IPv6, empty paths, nested and misplaced ://, "
+            "near-miss schemes, randomly damaged; with_maximum_payload_length from {0,1,1432,8192,65527,65528,70000,2^32-1,2^32,2^32+1,2^64-1, "
+            "random}) then the validated forwarder configuration (transport id, max, length-prefix flag, displayed address). (F) one flush of "
+            "State through the synchronous forwarder stand-in: at most one counter/gauge/histogram, names from the telemetry prefix, its near "
+            "misses and random strings, both aggregation modes (injected clock), global prefix incl. the telemetry prefix itself. "
+            "Non-trivial = a payload was yielded / a point dropped / a builder op ran; distinct = distinct (case, outputs). Thorough adds the "
+            "end-to-end engine: 6 real exporters on a harness UnixListener over >= 3 flush intervals (stream split by LE32 prefixes, every "
+            "frame parsed) and 6 real build() calls.")
+    level_text = ("Theorems (Coq, all op sequences, all maxima, both framing modes, all prefixes/labels/value strings): the executable "
+                  "specification accepts every output of the writer model (C09_spec_ok_on_model, unconditional) and acceptance means SpecP "
+                  "(C09_spec_ok_sound): WriteResults determined by which values fit, each drain yields the first k frames of the payloads "
+                  "announced since the previous drain, each frame = LE32(|body|)++body (or body) with |body| <= max, and the bodies of each "
+                  "write parse to its expected message over runs of exactly the values that fit. From any state satisfying Winv no "
+                  "operation panics and Winv is preserved (C09_total*); C09_len_bound, C09_framing, C09_drain_yields_committed, "
+                  "C09_point_conservation, C09_message_roundtrip as before. Wiring: address parsing equals the documented scheme table "
+                  "(C09_addr_*), the builder equals its reference semantics and accepted lengths respect the transport limit, length prefix "
+                  "iff unix stream (C09_builder_*), telemetry names are never prefixed, one flush never panics and its output passes the flush specification "
+                  "(C09_telemetry_prefix_bypass, C09_flush_total, C09_flush_spec_ok_on_model). The code as found is refuted clause by clause (C09_*_refuted_before_fix*). Models are tied to /repo by "
+                  "running the real code and the model on the same generated cases each run, byte for byte.")
+    level_note = ("spec_ok_on_model is proved for all three case kinds (C09_xspec_ok_on_model). C09_spec_ok_sound is one direction "
+                  "(acceptance implies SpecP), not an equivalence. Trusted: Coq kernel; hand-written models tied by differential runs; itoa/ryu "
+                  "number formatting and std's to_socket_addrs are oracles (echoed by the driver); usize arithmetic other than the subtraction "
+                  "in current_len assumed not to wrap; build() itself (thread spawn) is exercised only by the thorough end-to-end engine, the "
+                  "quick tier goes through the cfg(metrics_verif) hook verif_forwarder_config that repeats build()'s validation; histogram "
+                  "storage order (AtomicBucket) is avoided by recording equal values. Names, tags or prefixes containing : | , # newline are "
+                  "emitted unescaped; the message clause is stated under delimiter-freeness (wf_msg) and is vacuous for such inputs.")
     assumptions = ["itoa/ryu render the numbers; the rendered strings are non-empty and are passed to the model as data (python checks that each reads back to the same value)",
+                   "std::net::ToSocketAddrs decides whether a host:port text is an address; its verdicts are passed to the model as data",
                    "buffer lengths stay below 2^64 (usize additions do not wrap)",
                    "harness built with overflow checks: the usize subtraction in current_len panics on underflow (as modelled)",
-                   "message clause only for delimiter-free names/tags/prefix (wf_msg)"]
+                   "message clause only for delimiter-free names/tags/prefix (wf_msg)",
+                   "flush cases: at most one metric per kind (registry iteration order is not modelled), raw (unsampled) histograms with equal values"]
     trusted_extra = ["itoa 1.x / ryu 1.x number formatting (exercised, echoed by the driver, not modelled)",
                      "Codec.ux (primitive-integer packed byte literals, used only to transport test data into Coq; no theorem depends on it)",
-                     "metrics::Key / Label accessors (name(), labels(), key(), value()) return the strings they were built from"]
+                     "metrics::Key / Label accessors (name(), labels(), key(), value()) return the strings they were built from",
+                     "verif_state_driver::Driver (C10's hook) as the synchronous stand-in for Forwarder::run",
+                     "std UnixListener/UnixStream in the end-to-end engine"]
 
     # ------------------------------------------------------------------ generator
     def _str(self, rng, lo, hi, adversarial):
@@ -427,6 +435,94 @@ class C09(Prop):
             return None
         cc = {k: v for k, v in c.items() if k != "fmt"}
         return [cc, out]
+
+    # ------------------------------------------------------------------ end-to-end engine (thorough)
+    E2E = [  # max, prefix, telemetry, aggressive, cycles, interval ms
+        (None, None, 1, 0, 4, 80), (70, "srv", 1, 1, 4, 80), (64, None, 0, 0, 5, 60), (1432, "a.b", 0, 1, 4, 80),
+        (48, "p", 1, 0, 4, 80), (8192, "datadog.dogstatsd.client", 1, 1, 3, 80),
+    ]
+    LONG = "a_counter_with_a_name_that_is_much_longer_than_the_small_payload_limits_used_here"
+    # real build() after setter sequences: (ops, expected outcome per the reference semantics WSpec.spec_builder)
+    E2E_BUILD = [
+        ([["a", "unix:///tmp/c09-nonexistent.sock"], ["m", 70000], ["a", "127.0.0.1:9125"]], "err"),
+        ([["a", "unixgram:///tmp/c09-nonexistent.sock"], ["m", TWO32 - 1], ["a", "udp://127.0.0.1:9125"]], "err"),
+        ([["a", "unix:///tmp/c09-nonexistent.sock"], ["m", 70000]], "ok"),
+        ([["m", 65527]], "ok"),
+        ([["m", 65528]], "early"),
+        ([["a", "unix:///tmp/c09-nonexistent.sock"], ["m", TWO32]], "early"),
+    ]
+
+    def extra_checks(self, ctx):
+        if ctx["tier"] != "thorough":
+            return []
+        from . import core
+        import os
+        binpath = core.harness_build(self.pkg, "c09e2e")
+        lines = ["%s %s %d %d %d %d" % ("-" if m is None else m, "-" if p is None else "+" + hexs(p), t, a, c, i) for m, p, t, a, c, i in self.E2E]
+        rc, outs, err = core.run_impl(binpath, lines, timeout=300)
+        if rc != 0 or len(outs) != len(lines):
+            raise MachineryBroken("c09e2e: rc=%s, %d lines for %d scenarios\n%s" % (rc, len(outs), len(lines), err[-2000:]))
+        viol, terms, frames_total = [], [], 0
+        blines = ["B " + " ".join("a:%s" % hexs(o[1]) if o[0] == "a" else "m:%d" % o[1] for o in ops) for ops, _ in self.E2E_BUILD]
+        rc, bouts, err = core.run_impl(binpath, blines, timeout=120)
+        if rc != 0 or len(bouts) != len(blines):
+            raise MachineryBroken("c09e2e (build): rc=%s\n%s" % (rc, err[-2000:]))
+        for (ops, want), got in zip(self.E2E_BUILD, bouts):
+            if got != want:
+                viol.append(("e2e", "DogStatsDBuilder::build() returned %r where the documented limits require %r" % (got, want),
+                             dict(builder_ops=ops, got=got, want=want)))
+        ctx["coverage"]["e2e_build_calls"] = len(blines)
+        for k, (sc, line, o) in enumerate(zip(self.E2E, lines, outs)):
+            mx = 8192 if sc[0] is None else sc[0]
+            if o.startswith("ERR") or o == "-":
+                viol.append(("e2e", "end-to-end scenario produced no stream: %s" % o[:200], dict(scenario=line, out=o[:400])))
+                continue
+            data = bytes.fromhex(o)
+            pos, bodies, bad = 0, [], None
+            while pos < len(data):
+                if pos + 4 > len(data):
+                    bad = "truncated length prefix at offset %d" % pos
+                    break
+                n = int.from_bytes(data[pos:pos + 4], "little")
+                if pos + 4 + n > len(data):
+                    bad = "length prefix %d at offset %d runs past the end of the stream (%d bytes)" % (n, pos, len(data))
+                    break
+                bodies.append(data[pos + 4:pos + 4 + n])
+                pos += 4 + n
+            if bad:
+                viol.append(("e2e", "unix-stream framing broken: " + bad, dict(scenario=line, stream=o[:4000])))
+                continue
+            frames_total += len(bodies)
+            full = lambda nm: nm if sc[1] is None else sc[1] + "." + nm
+            allowed = [full(x) for x in ("reqs", "temp", "lat", self.LONG)]
+            must = [full(x) for x in ("reqs", "temp", "lat") if len(full(x)) + 30 <= mx]
+            terms.append((k, line, o, "e2e_ok %s %s %s (%s, %s) %s" % (
+                cq_N(mx), cq_list([self._hx(hexs(x)) for x in allowed]), cq_list([self._hx(hexs(x)) for x in must]),
+                self._hx(hexs("env")), self._hx(hexs("e2e")), cq_list([self._hx(b.hex()) for b in bodies]))))
+        if terms:
+            d = os.path.join(core.CACHE, "cases", self.pid)
+            os.makedirs(d, exist_ok=True)
+            path = os.path.join(d, "e2e_%d.v" % os.getpid())
+            with open(path, "w") as f:
+                f.write("From Coq Require Import List NArith.\nImport ListNotations.\nRequire Import MV.C09.XExec.\nOpen Scope N_scope.\n")
+                f.write("Eval vm_compute in [%s].\n" % "; ".join(t[3] for t in terms))
+            rc, out = core.coqc_file(path, timeout=300)
+            for ext in (".v", ".vo", ".vok", ".vos", ".glob"):
+                try:
+                    os.remove(path[:-2] + ext)
+                except OSError:
+                    pass
+            import re
+            res = re.findall(r"\b(true|false)\b", out.split(":")[0]) if rc == 0 else []
+            if rc != 0 or len(res) != len(terms):
+                raise MachineryBroken("e2e evaluation failed:\n" + out[-2000:])
+            for (k, line, o, _), r in zip(terms, res):
+                if r != "true":
+                    viol.append(("e2e", "a frame received on the unix-stream socket is over the limit, does not parse as the expected DogStatsD message, or an expected metric never arrived",
+                                 dict(scenario=line, stream=o[:6000])))
+        ctx["coverage"]["e2e_scenarios"] = len(self.E2E)
+        ctx["coverage"]["e2e_frames"] = frames_total
+        return viol
 
     # ------------------------------------------------------------------ shrinking
     def shrink(self, c):
